@@ -53,6 +53,8 @@ pub enum Sym {
     Oversized,
     /// length prefix announces more than is sent, then the stream ends
     Truncated(u8),
+    /// only 1..=3 bytes of a length prefix, then the stream ends
+    PartialHeader(u8),
     Close,
 }
 
@@ -104,11 +106,12 @@ fn sym() -> impl Strategy<Value = Sym> {
         2 => vec(any::<u8>(), 0..24).prop_map(Sym::Undecodable),
         1 => Just(Sym::Oversized),
         1 => (1u8..40).prop_map(Sym::Truncated),
+        1 => (1u8..=3).prop_map(Sym::PartialHeader),
         1 => Just(Sym::Close),
     ]
 }
 
-const FAULT_KINDS: u8 = 5;
+const FAULT_KINDS: u8 = 6;
 
 impl Prop for C10 {
     type Case = Case;
@@ -119,8 +122,8 @@ impl Prop for C10 {
         "(a) a scripted peer plays frame sequences over the alphabet {Init(known), Init(unknown), Init carrying entries, Sync(live reply of a real replica), \
          Sync(unexpected but well-formed), Abort(each reason), undecodable frame, oversized length, truncated frame, close} against \
          the real accepting side (BobState::run + into_outcome, accept callback Allow or Reject(each reason)) and against the real \
-         initiating side (run_alice), over in-memory duplex streams; all sequences of length <= 3 (quick) / <= 4 (thorough) over a \
-         10-symbol alphabet are enumerated, longer ones generated; (b) the real initiator and the real acceptor talk through a proxy \
+         initiating side (run_alice), over in-memory duplex streams; all sequences of length <= 3 (quick) / <= 4 (thorough) over an \
+         11-symbol alphabet are enumerated, longer ones generated; (b) the real initiator and the real acceptor talk through a proxy \
          that, before forwarding frame m (every m enumerated per pair of stores), closes the replica, disables sync, shuts the \
          store actor down, or cuts the stream inside the frame (clean EOF or reset) on one side. Oracle: both sides finish within \
          the watchdog, nobody panics (including into_outcome after an error and the store actor thread), a rejected Init produces \
@@ -145,6 +148,7 @@ impl Prop for C10 {
             Sym::Undecodable(vec![0xFF, 0x01, 0x02]),
             Sym::Oversized,
             Sym::Truncated(9),
+            Sym::PartialHeader(2),
             Sym::Close,
         ];
         let maxlen = tier.pick(3, 4);
@@ -533,6 +537,14 @@ fn vs_bob(ctx: &mut Ctx, local: &[Small], peer: &[Small], accept: u8, script: &[
                         let _ = pw.write_all(&v).await;
                         break;
                     }
+                    Sym::PartialHeader(n) => {
+                        if started {
+                            deviated_after_start = true;
+                        }
+                        let v = 40u32.to_be_bytes()[..(*n as usize).clamp(1, 3)].to_vec();
+                        let _ = pw.write_all(&v).await;
+                        break;
+                    }
                     Sym::Close => {
                         if started {
                             deviated_after_start = true;
@@ -718,6 +730,12 @@ fn vs_alice(ctx: &mut Ctx, local: &[Small], peer: &[Small], script: &[Sym], o: &
                         let _ = pw.write_all(&v).await;
                         break;
                     }
+                    Sym::PartialHeader(n) => {
+                        deviated = true;
+                        let v = 40u32.to_be_bytes()[..(*n as usize).clamp(1, 3)].to_vec();
+                        let _ = pw.write_all(&v).await;
+                        break;
+                    }
                     Sym::Close => {
                         deviated = true;
                         break;
@@ -878,8 +896,9 @@ fn faulty(ctx: &mut Ctx, a: &[Small], b: &[Small], fault: Option<(u8, bool, u8)>
                                 tokio::time::sleep(Duration::from_millis(5)).await;
                             }
                             _ => {
-                                // cut inside the frame: half the bytes, then EOF (kind 3) or reset (kind 4)
-                                let half = &raw[..raw.len() / 2];
+                                // cut inside the frame: half the bytes, then EOF (kind 3) or reset (kind 4); kind 5: inside
+                                // the 4-byte length prefix (1..=3 bytes), then EOF
+                                let half = if kind == 5 { &raw[..1 + (m as usize % 3)] } else { &raw[..raw.len() / 2] };
                                 if from_a {
                                     let _ = pbw.write_all(half).await;
                                 } else {
@@ -931,7 +950,8 @@ fn faulty(ctx: &mut Ctx, a: &[Small], b: &[Small], fault: Option<(u8, bool, u8)>
             Some((_, _, 1)) => o.class("fault/disable-sync"),
             Some((_, _, 2)) => o.class("fault/actor-shutdown"),
             Some((_, _, 3)) => o.class("fault/cut-inside-frame-eof"),
-            Some(_) => o.class("fault/cut-inside-frame-reset"),
+            Some((_, _, 4)) => o.class("fault/cut-inside-frame-reset"),
+            Some(_) => o.class("fault/cut-inside-length-prefix"),
         }
         if let Some(m) = injected_at {
             if m >= 2 {
